@@ -1051,7 +1051,8 @@ class AstEval:
         else:
             for arg1 in arg.orelse:
                 val = await self.aeval(arg1)
-                if isinstance(val, EvalReturn):
+                if isinstance(val, EvalStopFlow):
+                    # return, or a break/continue that applies to an enclosing loop
                     return val
         return None
 
@@ -1073,7 +1074,8 @@ class AstEval:
         else:
             for arg1 in arg.orelse:
                 val = await self.aeval(arg1)
-                if isinstance(val, EvalReturn):
+                if isinstance(val, EvalStopFlow):
+                    # return, or a break/continue that applies to an enclosing loop
                     return val
         return None
 
